@@ -64,6 +64,7 @@ type Node struct {
 	jmu        sync.Mutex
 	jrng       *rand.Rand
 	Reconnects atomic.Int64
+	runErr     atomic.Value
 }
 
 func (n *Node) jitter() {
@@ -222,7 +223,17 @@ func NewNode(o NodeOpts) (*Node, error) {
 // Start runs the syncer in the background.
 func (n *Node) Start() {
 	n.runDone = make(chan error, 1)
-	go func() { n.runDone <- n.S.Run() }()
+	go func() {
+		err := n.S.Run()
+		n.runErr.Store(fmt.Sprintf("Run returned: %v", err))
+		n.runDone <- err
+	}()
+}
+
+// RunExited reports whether Syncer.Run has returned (and with what).
+func (n *Node) RunExited() (string, bool) {
+	v, _ := n.runErr.Load().(string)
+	return v, v != ""
 }
 
 // Connect dials addr from this node.
